@@ -59,18 +59,23 @@ Definition model_error_outcome (site : error_site) (stk : list frame) (s : state
    XDotSyntax            . /synt.sh  (contains `if`) source -> read_eval_loop -> handle.rs syntax error: Interrupt(2), also through `command`
    XDotSpecial           . /shift.sh (contains `shift 5`)  the inner special built-in's Interrupt passes through `.`
    XPrefixShiftTooMany   v9=t0 shift 5               the error of a special built-in with an assignment prefix
+   XEvalCommandSoft      eval 'command shift 5'      the error of a special built-in run through `command` INSIDE eval: only the
+                                                     innermost Builtin frame decides (common/report.rs), status 1, the script goes on
+   XDotCommandSoft       . /cshift.sh (contains `command shift 5`)   the same inside a dot script
    (the harness writes the two files first: `echo if >/synt.sh`, `echo 'shift 5' >/shift.sh`) *)
 Inductive xerr :=
 | XShiftTooMany | XShiftOperand | XUnsetReadonly | XSetBadOption | XReadonlyReassign
 | XExportReadonly | XExportSubstReadonly | XTimesOperand | XReturnOperand | XBreakOperand
 | XDotNotFound | XExecNotFound | XEvalSyntax | XEvalSpecial | XTrapBadSignal | XExportSubstFails
-| XExecNotFoundPath | XDotSyntax | XDotSpecial | XPrefixShiftTooMany.
+| XExecNotFoundPath | XDotSyntax | XDotSpecial | XPrefixShiftTooMany
+| XEvalCommandSoft | XDotCommandSoft.
 
 Definition all_xerr : list xerr :=
   [XShiftTooMany; XShiftOperand; XUnsetReadonly; XSetBadOption; XReadonlyReassign;
    XExportReadonly; XExportSubstReadonly; XTimesOperand; XReturnOperand; XBreakOperand;
    XDotNotFound; XExecNotFound; XEvalSyntax; XEvalSpecial; XTrapBadSignal; XExportSubstFails;
-   XExecNotFoundPath; XDotSyntax; XDotSpecial; XPrefixShiftTooMany].
+   XExecNotFoundPath; XDotSyntax; XDotSpecial; XPrefixShiftTooMany;
+   XEvalCommandSoft; XDotCommandSoft].
 
 (* [viac]: the command is run through the `command` built-in *)
 Definition xlower (e : xerr) (viac : bool) : cmd :=
@@ -87,7 +92,7 @@ Definition xlower (e : xerr) (viac : bool) : cmd :=
   | XPrefixShiftTooMany =>
       (* the `command` built-in with an assignment prefix: the assignment is temporary and not observed *)
       if viac then CCall d NDot [] else CPrefixCall 9 (WLit 0) NDot []
-  | XTrapBadSignal => CCall d NFalse []
+  | XTrapBadSignal | XEvalCommandSoft | XDotCommandSoft => CCall d NFalse []
   | XExportSubstFails => CCall d NColon []
   end.
 
